@@ -725,7 +725,7 @@ fn add_private_history(git: &Git, n: usize, base: Option<&str>) -> Result<(), St
     Ok(())
 }
 
-fn main() {
+pub fn main() {
     hermetic_env();
     let mut ck = Check::new("C31", "exploration");
     ck.rule("Scenarios decoded from a byte tape: server history of 1..35 commits (12%: 40..140) with merges, extra roots, equal and skewed commit times, 1..4 branches and 0..3 lightweight/annotated tags at S1; updates to S2 per branch (unchanged / moved to new commits / rewound to an ancestor / moved anywhere / deleted), new branches, moved/deleted/new tags; bare client prepared by real git (empty / stale / partial / shallow; 23%: a private branch of 17..70 commits unknown to the server so that negotiation takes several rounds); remote.origin.fetch from 8 refspec families (forced and non-forced globs, explicit branches, renaming globs, explicit tags, negative, mirror, into local branches); tagOpt default/--no-tags/--tags; protocol.version 0/1/2; fetch.negotiationAlgorithm unset/consecutive/skipping/noop; --depth / --deepen for a class. Non-trivial: the update contains a non-fast-forward move or a deletion, or the client already has part of the history or private history (negotiation happens). Distinct by hash of the decoded scenario.");
@@ -733,7 +733,7 @@ fn main() {
     ck.assume("with the default tag mode (auto-follow) gitoxide documents `Tags::Included` as 'only the tags that point to the objects being sent'; git additionally back-fills annotated tags whose target the client already had. That class is recognised (annotated server tag missing locally whose peeled target exists locally before the fetch) and only there refs/tags/* of A may be a subset of B's");
     ck.assume("refs are compared by name and resolved object id (gitoxide may store a symbolic ref where git stores the value)");
 
-    ck.sub("fetch", SubCfg::new(240, 8_000).max_len(1400).max_shrink(40), |t, c| {
+    ck.sub("fetch", SubCfg::new(200, 6_000).max_len(1400).max_shrink(40), |t, c| {
         let s = gen_scenario(t, c);
         c.key(&s);
         update_labels(&s, c);
@@ -759,11 +759,10 @@ fn main() {
         match s.init {
             ClientInit::Empty => {}
             ClientInit::Stale => {
-                let (ok, _, err) = infra!(c, cgit.try_run(["fetch", "-q", "origin"], None), "initial git fetch");
-                if !ok && !h.s1.branches.is_empty() && String::from_utf8_lossy(&err).contains("fatal") {
-                    c.infra(format!("initial git fetch failed: {}", String::from_utf8_lossy(&err)));
-                    return;
-                }
+                // may legitimately fail (an explicit refspec naming a branch that only exists at S2): the client then
+                // simply starts from whatever git left behind
+                let (ok, _, _) = infra!(c, cgit.try_run(["fetch", "-q", "origin"], None), "initial git fetch");
+                c.label_if(!ok, "initial-git-fetch-refused");
             }
             ClientInit::Partial => {
                 let b = h.s1.branches.keys().next().cloned().unwrap_or_default();
@@ -771,15 +770,12 @@ fn main() {
                 infra!(c, cgit.run(["fetch", "-q", "--no-tags", &url, &spec]), "partial git fetch");
             }
             ClientInit::StaleShallow(d) => {
-                let (ok, _, err) = infra!(
+                let (ok, _, _) = infra!(
                     c,
                     cgit.try_run(["fetch", "-q", &format!("--depth={d}"), "origin"], None),
                     "initial shallow git fetch"
                 );
-                if !ok && String::from_utf8_lossy(&err).contains("fatal") {
-                    c.infra(format!("initial shallow git fetch failed: {}", String::from_utf8_lossy(&err)));
-                    return;
-                }
+                c.label_if(!ok, "initial-git-fetch-refused");
             }
         }
         if s.private_commits > 0 {
@@ -993,7 +989,7 @@ fn main() {
         );
     });
 
-    ck.sub("clone", SubCfg::new(100, 3_000).max_len(1400).max_shrink(40), |t, c| {
+    ck.sub("clone", SubCfg::new(80, 2_400).max_len(1400).max_shrink(40), |t, c| {
         let large = t.chance(20);
         let mut h = gen_history(t, large);
         let bare = t.bool();
